@@ -1,19 +1,21 @@
 #!/usr/bin/env python3
-"""stores confirmed round-2 seeds: tools_seed_store.py <json file: {"C11 m1": [change, needs, detection, follow_up, [detected_by...]], ...}>"""
+"""stores confirmed seeds of round N (default 2): tools_seed_store.py <json file> [N]; json: {"C11 m1": [change, needs, detection, follow_up, [detected_by...]], ...}>"""
 import json, os, shutil, subprocess, sys
 head = subprocess.check_output(['git', '-C', '/repo', 'log', '--format=%h', '-1']).decode().strip()
 author = "fresh sub-agent given the property text, a scratch worktree and the hint that the verifiers use small-input randomized tests (asked for defects such tests are likely to miss)"
+author3 = "fresh sub-agent given the property text, a scratch worktree and a description of what the verifiers do after two rounds (small-input models, scale-up tests, two-step histories, real files and pipes, repeated options, concurrent callers); asked for what is left: less central entry points, seldom varied environment, state across more than two steps, numeric edge values, error paths"
 S = json.load(open(sys.argv[1]))
+RND = int(sys.argv[2]) if len(sys.argv) > 2 else 2
 for key, (chg, needs, det, fu, by) in S.items():
     P, M = key.split()
-    src = f'/tmp/seed2-{P}/SEED/{M}'
-    dst = f'/verif/seeded/{P}-r2{M}'
+    src = f'/tmp/seed{RND}-{P}/SEED/{M}'
+    dst = f'/verif/seeded/{P}-r{RND}{M}'
     os.makedirs(dst, exist_ok=True)
     for f in os.listdir(src):
         fp = os.path.join(src, f)
         if os.path.isfile(fp) and os.path.getsize(fp) < 300_000 and (f in ('patch.diff', 'README.md') or f.startswith('demo') or f.endswith('.py')):
             shutil.copy(fp, dst)
-    meta = {"property": P, "name": f"{P}-r2{M}", "round": 2, "author": author, "change": chg, "needs_to_manifest": needs,
+    meta = {"property": P, "name": f"{P}-r{RND}{M}", "round": RND, "author": (author3 if RND == 3 else author), "change": chg, "needs_to_manifest": needs,
             "confirmed": {"repo_head": head, "applies_and_builds": True, "pinned_unit_tests_of_touched_packages_still_pass": True,
                           "demonstration_fails_with_patch_and_passes_without": True,
                           "how": "tools_seed_confirm.sh / tools_seed_confirm_sh.sh: the seed's demonstration run with and without patch.diff in a scratch worktree; tools_seed_eval.sh for build + unit tests + checks"},
